@@ -277,9 +277,11 @@ impl<B: StarkField> AirContext<B> {
         let trace_length = self.trace_len();
         let transition_divisior_degree = trace_length - self.num_transition_exemptions();
 
-        // we use the identity: ceil(a/b) = (a + b - 1)/b
+        // the constraint composition polynomial has degree equal to the difference between the
+        // highest constraint evaluation degree and the degree of the transition divisor, and thus
+        // has one more coefficient than that; each column holds `trace_length` coefficients
         let num_constraint_col =
-            (highest_constraint_degree - transition_divisior_degree).div_ceil(trace_length);
+            (highest_constraint_degree - transition_divisior_degree + 1).div_ceil(trace_length);
 
         cmp::max(num_constraint_col, 1)
     }
